@@ -825,6 +825,53 @@ def extra_feature_jobs(tier, rng):
     return jobs
 
 
+def dynmacro_limit_jobs(tier, rng):
+    """Dynamic macros whose recording is cut off by a small dynamic-macro-max-presses: every physically consistent
+    typing pattern over 2 keys (all of them, max-presses 1) / a sample over 3 keys incl. a modifier (max-presses 2, 3)
+    whose length reaches the limit - so the limit is hit after a press, after a release and with keys held -,
+    then everything is released, the recording is stopped (a no-op when the limit already ended it), the macro is
+    played twice, then the quiet tail."""
+    import itertools
+    C = cfgdesc.code
+    REC, PLAY, STOP = C("a"), C("b"), C("c")
+    typ = [C("d"), C("e"), C("f")]
+    jobs = []
+    for M in (1, 2, 3):
+        kbd = ("(defcfg dynamic-macro-max-presses %d)\n(defsrc a b c d e f)\n"
+               "(deflayer l0 (dynamic-macro-record 1) (dynamic-macro-play 1) dynamic-macro-record-stop x y (multi lsft z))\n" % M)
+        lens = range(2 * M + 1, 2 * M + 5)
+        if M == 1:
+            seqs = [q for n in lens for q in itertools.product(typ[:2], repeat=n)]
+            seqs += rng.sample([q for n in lens for q in itertools.product(typ, repeat=n)], 40 if tier == "quick" else 400)
+        else:
+            seqs = [tuple(rng.choice(typ) for _ in range(rng.choice(list(lens)))) for _ in range(60 if tier == "quick" else 600)]
+        scripts = []
+        dur = 0
+        for q in seqs:
+            s = [["d", REC], ["t", 2], ["u", REC], ["t", 2]]
+            down = set()
+            for k in q:                      # a key toggles: press if up, release if down
+                if k in down:
+                    s.append(["u", k])
+                    down.discard(k)
+                else:
+                    s.append(["d", k])
+                    down.add(k)
+                s.append(["t", rng.choice([1, 1, 2, 5])])
+            for k in sorted(down):
+                s += [["u", k], ["t", 1]]
+            s += [["t", 10], ["d", STOP], ["t", 2], ["u", STOP], ["t", 5]]
+            for _ in range(2):
+                s += [["d", PLAY], ["t", 2], ["u", PLAY], ["t", 60]]
+            scripts.append(s)
+            dur = max(dur, sum(x[1] for x in s if x[0] == "t") + len(s))
+        p = text_params(kbd, extra=2 * dur)
+        for s in scripts:
+            s.append(["t", bound_of(p) + 30])
+        jobs.append({"cfg": kbd, "params": p, "tag": "x:dynmacro_limit_%d" % M, "scripts": scripts})
+    return jobs
+
+
 def random_jobs(tier, rng, wd, stats):
     ncfg = 90 if tier == "quick" else 800
     texts, metas = [], []
@@ -899,7 +946,7 @@ def run(tier, seed):
     witness_jobs = mc_part(res, tier, wd, rng)
     log("[C01] model checking part: %.1fs" % (time.time() - t0))
     parts = [("witness", witness_jobs), ("family", family_random_jobs(tier, rng)), ("burst", burst_jobs(tier, rng)),
-             ("extra", extra_feature_jobs(tier, rng))]
+             ("extra", extra_feature_jobs(tier, rng) + dynmacro_limit_jobs(tier, rng))]
     rj, used = random_jobs(tier, rng, wd, stats)
     parts.append(("random", rj))
     for label, jobs in parts:
